@@ -11,4 +11,4 @@ RULE = ("same histories as C19; the verifier-call counter (hook: static incremen
 
 
 def nontrivial(case, model_out):
-    return bool(tagbits(case) & (1 << 4)) and "6" in opcodes(case)
+    return bool(tagbits(case) & (1 << 2)) and "6" in opcodes(case)
